@@ -113,11 +113,18 @@ def alias_pair_free(prog, rule, pair=("key", "key_orig")):
                     rule.ok(key, "entry tear-down: both fields released, the other one only when distinct")
                     continue
                 fresh = []
+                fresh_locals = set()
+                for (b2, i2, r2, d2) in fn.eval_sites("decl"):
+                    for v2 in d2.get("vars", []):
+                        ini = strip(v2.get("init")) if v2.get("init") is not None else None
+                        if isinstance(ini, dict) and ini.get("k") == "call" and ini.get("callee") in ("malloc", "calloc", "strdup", "cif_u_strdup", "cif_u_strndup"):
+                            fresh_locals.add(v2["name"])
                 for (b2, i2, r2, a) in fn.eval_sites("asg"):
                     lp = path(strip(a.get("lhs"))) or ""
                     if lp in ("%s->%s" % (base, fld), "%s.%s" % (base, fld)):
                         rr = strip(a.get("rhs"))
-                        if isinstance(rr, dict) and rr.get("k") == "call" and rr.get("callee") in ("malloc", "calloc", "strdup", "cif_u_strdup", "cif_u_strndup"):
+                        if (isinstance(rr, dict) and rr.get("k") == "call" and rr.get("callee") in ("malloc", "calloc", "strdup", "cif_u_strdup", "cif_u_strndup")) \
+                                or path(rr) in fresh_locals:
                             fresh.append((b2.id, i2))
                         else:
                             fresh = None
@@ -322,10 +329,27 @@ def growth_positive(prog, rule):
                 old, inc = (l, rr) if path(l) and path(l) != tgt else ((rr, l) if path(rr) and path(rr) != tgt else (None, None))
                 if old is None or const(inc) is not None and path(old) is None:
                     continue
-                if not cfgq.must_precede(fn, (b.id, i), [(b2.id, i2)]):
+                # the assignment must be able to reach the realloc (one of several reaching definitions is fine)
+                if not ((b2.id == b.id and i2 < i) or (b2.id != b.id and b.id in cfgq.reach(fn, [b2.id]))):
                     continue
                 judged += 1
-                lo, hi = ival(inc)
+                # guards on `old` that hold at the assignment (e.g. the else-arm of `if (cap < 10)`)
+                env = {}
+                op_ = path(old)
+                for gb in fn.blocks.values():
+                    cnd = cfgq.cond_of(fn, gb)
+                    if cnd is None or len(gb.succs) != 2:
+                        continue
+                    t = cfgq.cmp_test(cnd, lambda e, op_=op_: path(strip(e)) == op_)
+                    if t is None:
+                        continue
+                    cop, cv = t
+                    base = env.get(op_, (0, INF) if _unsigned(strip(old).get("t")) else (-INF, INF))
+                    if cfgq.must_pass_edge(fn, b2.id, [(gb.id, 0)]):
+                        env[op_] = _refine(base, cop, cv)
+                    elif cfgq.must_pass_edge(fn, b2.id, [(gb.id, 1)]):
+                        env[op_] = _refine(base, {"<": ">=", "<=": ">", ">": "<=", ">=": "<", "==": "!=", "!=": "=="}[cop], cv)
+                lo, hi = ival(inc, env)
                 key = "%s:%s=%s+inc" % (fn.name, tgt, path(old))
                 if lo >= 1:
                     rule.ok(key, "increment `%s` is at least %s" % (show(inc)[:80], lo))
@@ -713,6 +737,23 @@ def keep_or_replace(prog, rule):
                                 if isinstance(sa, dict) and sa.get("k") == "member" and path(strip(sa.get("base"))) == path(strip(kept.get("base"))):
                                     cmp_fields.append((sa.get("name"), x))
             if not cmp_fields:
+                # `if (... cmp(new, e->F) == 0 ...) changed = 0;` : the comparison guards a store to the deciding variable
+                for (b2, i2, r2, a) in fn.eval_sites("asg"):
+                    if path(strip(a.get("lhs"))) not in cvars:
+                        continue
+                    for gb in fn.blocks.values():
+                        cnd = cfgq.cond_of(fn, gb)
+                        if cnd is None or len(gb.succs) != 2:
+                            continue
+                        if not (cfgq.must_pass_edge(fn, b2.id, [(gb.id, 0)]) or cfgq.must_pass_edge(fn, b2.id, [(gb.id, 1)])):
+                            continue
+                        for x in walk(cnd):
+                            if x.get("k") == "call" and x.get("callee") in ("u_strcmp", "u_strncmp", "strcmp", "u_strcasecmp", "memcmp"):
+                                for arg in x.get("args", [])[:2]:
+                                    sa = strip(arg)
+                                    if isinstance(sa, dict) and sa.get("k") == "member" and path(strip(sa.get("base"))) == path(strip(kept.get("base"))):
+                                        cmp_fields.append((sa.get("name"), x))
+            if not cmp_fields:
                 continue
             n += 1
             key = "%s:%s" % (fn.name, path(kept))
@@ -831,9 +872,12 @@ def release_sees_initialised(prog, rule):
                     continue
                 n += 1
                 missing = []
+                zero_fills = [(b2.id, i2) for (b2, i2, r2, c2) in fn.calls_to("memset")
+                              if c2.get("args") and path(strip(c2["args"][0])) == x and len(c2["args"]) > 1 and const(c2["args"][1]) == 0]
                 for f in sorted(rel[g]):
                     stores = [(b2.id, i2) for (b2, i2, r2, a) in fn.eval_sites("asg")
                               if (path(strip(a.get("lhs"))) or "") == "%s->%s" % (x, f) or (path(strip(a.get("lhs"))) or "").startswith("%s->%s." % (x, f))]
+                    stores += zero_fills
                     mf = cfgq.MustFact(fn, gen_sites=stores, kill_sites=[(ab, ai)], entry_value=False)
                     if not mf.at(b.id, i):
                         missing.append(f)
